@@ -13,7 +13,8 @@ for d in sorted(glob.glob(os.path.join(V, "seeded", "*"))):
     name = os.path.basename(d)
     clean = lambda t, n: re.sub(r"\s+", " ", str(t)).replace("|", "/")[:n]
     rows.append((name, clean(m.get("summary", ""), 170), clean(m.get("needs", ""), 130), m.get("caught")))
-r1 = [r for r in rows if "_r2_" not in r[0] and "_r3_" not in r[0] and "_r4_" not in r[0] and "_r5_" not in r[0]]
+r1 = [r for r in rows if not any(("_r%d_" % k) in r[0] for k in (2, 3, 4, 5, 6))]
+r6 = [r for r in rows if "_r6_" in r[0]]
 r4 = [r for r in rows if "_r4_" in r[0]]
 r5 = [r for r in rows if "_r5_" in r[0]]
 r2 = [r for r in rows if "_r2_" in r[0]]
@@ -40,12 +41,17 @@ boundary, float arithmetic beyond 2^53, values beyond `sys.maxsize`), INDIRECT P
 wrong through another entry point: `IPGlob` standing in for `IPRange`, objects that went through pickle / copy, keyword vs
 positional arguments, a helper shared with other callers), EXOTIC BUT IN-SCOPE INPUT FORM OR ENVIRONMENT (trailing newline, Unicode
 digits and blanks that `int()` / `isdigit()` / `\\d` accept, mixed-case hexadecimal, objects with `__index__`, one-shot iterators,
-networks written with host bits, CPython's 4300-digit limit).  Every change listed was confirmed by me in a
+networks written with host bits, CPython's 4300-digit limit); round 6 (`tools/seed_prompt_r6.md`) asked for changes that do NOT edit
+the body of a function the property's anchors name, one of each of: MODULE LEVEL / CLASS LEVEL / IMPORT TIME (a module-level table or
+comprehension, a default argument, a class attribute, a `property(...)` or decorator line, an alias such as `__ior__ = update`, a
+platform switch), HELPER OR GLUE OUTSIDE THE ANCHORS (a shared helper, a base-class or `compat.py` / `core.py` function, a `__repr__` /
+`__iter__` / `__copy__` / `__reduce__` method, an error-message expression), ONE FAMILY ONLY (the IPv4 / IPv6, EUI-48 / EUI-64 or
+platform / fallback sibling paths made to diverge for a narrow class of inputs of one of them).  Every change listed was confirmed by me in a
 scratch worktree (`tools/eval_seeded.sh`: suite unchanged at 268 passed / 2 pre-existing failures; demo exits 0 on the
 untouched tree and 1 with the change) and the property's quick check was run against the changed tree.  The patch, the
 demo and `meta.json` (what it needs to manifest, what was run, the tail of the check output) are kept under `seeded/<name>/`.
 
-**Result: all %d changes (%d round 1, %d round 2, %d round 3, %d round 4, %d round 5) are caught by the quick tier of the property's own check.**  That was
+**Result: all %d changes (%d round 1, %d round 2, %d round 3, %d round 4, %d round 5, %d round 6) are caught by the quick tier of the property's own check.**  That was
 not so at first; the misses drove these additions:
 
 * round 1, 3 of 57 missed: `C02_2` (memoised `netmask` not invalidated by the `prefixlen` setter) → setter histories read
@@ -99,10 +105,24 @@ not so at first; the misses drove these additions:
   lists of 150…2600 items for `cidr_merge` and 120…2300 for `spanning_cidr`; round-robin distribution of the cases over the worker
   processes (long cases no longer land in one worker); `harness/unistream.py` (text beyond latin-1 at the strict entry points).
   All 60 are now reported.
+* round 6, 4 of 60 missed at first: `C04_r6_1` (the four prefix / mask dictionaries of the strategy modules filled by one import-time
+  loop that stops before prefix = width; eight other round-6 seeds are variations of it and were caught through mask-form text) →
+  the dictionaries AS LOADED are now a regenerated data tie (`harness/gen/prefix.py` → `coq/Gen/prefix_gen.v`, `Props/C03_tables.v`:
+  equal to the model's tables row for row), an obligation of C02, C03 and, through `harness/callee_ties.py`, of every check whose
+  model composition goes through the network parser; C04's text operands also come in `address/netmask` and `address/hostmask` form;
+  `C06_r6_1` (a class-body alias `__ior__ = update`, so `s |= t` leaves `None`) → the IPSet histories use the operator syntax itself
+  (`a | b`, not `a.__or__(b)`) and the augmented spellings `|= &= -= ^=` when the target register is the left operand; `C02_r6_2` (a
+  helper of `parse_ip_network` that reads the all-ones netmask as prefix 0) → C02 builds "every network" in every spelling (tuple, CIDR
+  text, netmask text, hostmask text; chosen from the content) and has the parser's source tie among its obligations; `C14_r6_1` (the
+  error-message helper chosen once at import by `if sys.get_int_max_str_digits():`) → C14 runs every case under a second import-time
+  configuration (digit limit off while netaddr is imported, on afterwards; `NV_BACKEND=nodigitcap` of `harness/implrun.py`).
+  Recurring themes of the other 56, all reported at once: the IPv4-first family detection reached through a positional `version`
+  (`IPNetwork((v, p), version)` binds `implicit_prefix`), memoised bounds of `IPRange` surviving the `IPGlob.glob` setter, state
+  restored through a constructor that re-detects the family, regexes whose `$` tolerates a trailing newline, `isdigit()`.
 
 | seeded change | what was changed | needs, to manifest | caught |
 |---|---|---|---|
-''' % (len(rows), len(r1), len(r2), len(r3), len(r4), len(r5))
+''' % (len(rows), len(r1), len(r2), len(r3), len(r4), len(r5), len(r6))
 for r in rows:
     s += "| `%s` | %s | %s | %s |\n" % (r[0], r[1], r[2], "yes" if r[3] else "NO")
 
